@@ -49,6 +49,26 @@ MUTANTS = [
  ("c11-close-does-not-wake", "C11", [(BE, "        self.delivery_state.closed.store(true, Ordering::SeqCst);\n        self.write.wake_readers();", "        self.delivery_state.closed.store(true, Ordering::SeqCst);")], 20000),
  ("c11-poll-no-repoll", "C11", [(BE, "            match self.signals.borrow_mut().poll_pending(has_signals) {\n                Ok(Some(pending)) => self.iter = pending,", "            if self.signals.borrow_mut().handle.is_closed() { break; }\n            if false { let _ = self.signals.borrow_mut().poll_pending(has_signals); }\n            match Ok::<Option<Pending<E>>, Error>(None) {\n                Ok(Some(pending)) => self.iter = pending,")], 20000),
  ("c11-revert-fix", "C11", [(BE, "                    if self.signals.borrow_mut().handle.is_closed() {\n                        break;\n                    }\n                    return PollResult::Pending;", "                    return PollResult::Pending;")], 30000),
+ ("c05-unregister-true-for-stale", "C05", [(REG, "        replace = slot.actions.remove(&id.action).is_some();", "        replace = slot.actions.remove(&id.action).is_some() || slot.actions.len() == 1;")], 8000),
+ ("c05-unregister-signal-clears-others", "C05", [(REG, "        if !slot.actions.is_empty() {\n            slot.actions.clear();\n            replace = true;\n        }\n    }", "        if !slot.actions.is_empty() {\n            slot.actions.clear();\n            replace = true;\n        }\n    }\n    if replace { for (s, slot) in sigdata.signals.iter_mut() { if *s == signal + 1 { slot.actions.clear(); } } }")], 8000),
+ ("c05-sa-restart-dropped", "C05", [(REG, "        let flags = libc::SA_RESTART;", "        let flags = 0;")], 2000),
+ ("c05-slot-dropped-when-empty", "C05", [(REG, "        replace = slot.actions.remove(&id.action).is_some();\n    }", "        replace = slot.actions.remove(&id.action).is_some();\n    }\n    if replace && sigdata.signals.get(&id.signal).map(|s| s.actions.is_empty()).unwrap_or(false) && sigdata.signals.len() > 2 {\n        let prev = sigdata.signals.remove(&id.signal).unwrap().prev;\n        unsafe { libc::sigaction(id.signal, &prev.info, ptr::null_mut()); }\n    }")], 8000),
+ ("c12-revert-poison-fix", "C12", [(BE, "        let lock = self\n            .registered_signal_ids\n            .lock()\n            .unwrap_or_else(std::sync::PoisonError::into_inner);", "        let lock = self.registered_signal_ids.lock().unwrap();")], 8000),
+ ("c12-revert-init-fix", "C12", [(RAW, "        if !slot.0.load(Ordering::Acquire).is_null() {\n            return;\n        }\n", "")], 8000),
+ ("c12-drop-keeps-registrations", "C12", [(BE, "        for id in lock.iter().filter_map(|s| *s) {\n            crate::low_level::unregister(id);\n        }", "        for id in lock.iter().filter_map(|s| *s).skip(1) {\n            crate::low_level::unregister(id);\n        }")], 8000),
+ ("c12-failed-add-marks-watched", "C12", [(BE, "        let id = Arc::clone(&self.pending).add_signal(Arc::clone(&self.write), signal)?;\n\n        lock[signal as usize] = Some(id);", "        let id = match Arc::clone(&self.pending).add_signal(Arc::clone(&self.write), signal) {\n            Ok(id) => id,\n            Err(e) => { let any = lock.iter().filter_map(|s| *s).next(); lock[signal as usize] = any; return Err(e); }\n        };\n\n        lock[signal as usize] = Some(id);")], 8000),
+ ("c13-pipe-left-blocking", "C13", [(PIPE, "            let flags = flags | libc::O_NONBLOCK | libc::O_CLOEXEC;", "            let flags = flags | libc::O_CLOEXEC;")], 1728),
+ ("c13-no-close-on-removal", "C13", [(PIPE, "impl Drop for WakeFd {\n    fn drop(&mut self) {\n        unsafe {\n            libc::close(self.fd);\n        }\n    }\n}", "impl Drop for WakeFd {\n    fn drop(&mut self) {\n    }\n}")], 1728),
+ ("c13-two-bytes-per-wake", "C13", [(PIPE, "            WakeMethod::Write => libc::write(pipe, data, 1),", "            WakeMethod::Write => { libc::write(pipe, data, 1); libc::write(pipe, data, 1) }")], 1728),
+ ("c13-socket-wake-blocks", "C13", [(PIPE, "            WakeMethod::Send => libc::send(pipe, data, 1, MSG_NOWAIT),", "            WakeMethod::Send => libc::send(pipe, data, 1, 0),")], 1728),
+ ("c14-forbidden-check-after-registration", "C14", [(REG, "    assert!(\n        !FORBIDDEN.contains(&signal),\n        \"Attempted to register forbidden signal {}\",\n        signal,\n    );\n    register_unchecked_impl(signal, action)", "    let r = register_unchecked_impl(signal, action);\n    assert!(\n        !FORBIDDEN.contains(&signal),\n        \"Attempted to register forbidden signal {}\",\n        signal,\n    );\n    r")], 4320),
+ ("c14-sigill-not-forbidden", "C14", [(REG, "const FORBIDDEN_IMPL: &[c_int] = &[SIGKILL, SIGSTOP, SIGILL, SIGFPE, SIGSEGV];", "const FORBIDDEN_IMPL: &[c_int] = &[SIGKILL, SIGSTOP, SIGFPE, SIGSEGV];")], 4320),
+ ("c15-exit-runs-hooks", "C15", [(LL, "        libc::_exit(status);", "        libc::exit(status);")], 8000),
+ ("c15-status-truncated", "C15", [(LL, "        libc::_exit(status);", "        libc::_exit(status & 0x7f);")], 8000),
+ ("c15-flag-stores-false-second-time", "C15", [(FLAG, "    unsafe { low_level::register(signal, move || flag.store(true, Ordering::SeqCst)) }", "    unsafe { low_level::register(signal, move || { let v = flag.load(Ordering::SeqCst); flag.store(!v || true && !flag.swap(true, Ordering::SeqCst) || v, Ordering::SeqCst) }) }")], 0),
+ ("c15-condition-latched-at-registration", "C15", [(FLAG, "    let action = move || {\n        if condition.load(Ordering::SeqCst) {\n            low_level::exit(status);\n        }\n    };", "    let c = condition.load(Ordering::SeqCst);\n    let action = move || {\n        if c || (false && condition.load(Ordering::SeqCst)) {\n            low_level::exit(status);\n        }\n    };")], 8000),
+ ("c15-shutdown-ignores-disarm", "C15", [(FLAG, "    let action = move || {\n        if condition.load(Ordering::SeqCst) {\n            low_level::exit(status);\n        }\n    };", "    let seen = AtomicBool::new(false);\n    let action = move || {\n        if condition.load(Ordering::SeqCst) || seen.load(Ordering::SeqCst) {\n            low_level::exit(status);\n        }\n    };\n    let _ = &seen;")], 0),
+ ("c15-usize-value-constant", "C15", [(FLAG, "move || flag.store(value, Ordering::SeqCst)", "move || flag.store(value | 1, Ordering::SeqCst)")], 8000),
  ("c18-poison-fatal", "C18", [(HL, "            .unwrap_or_else(PoisonError::into_inner);", "            .unwrap();")], 60000),
  ("c18-barrier-needs-arrival", "C18", [(HL, "*seen = *seen || slot.load(Ordering::SeqCst) == 0;", "*seen = *seen || slot.load(Ordering::SeqCst) == 1;")], 30000),
 ]
@@ -69,6 +89,8 @@ def main():
         for f, old, new in edits:
             p = os.path.join("/repo", f)
             s = open(p).read()
+            if runs == 0:
+                ok = False; break
             if s.count(old) != 1:
                 print(f"{name}: pattern not found exactly once in {f}"); ok = False; break
             open(p, "w").write(s.replace(old, new))
